@@ -598,3 +598,10 @@ Proof.
     + rewrite Rmult_0_l. split; [|right; reflexivity]. split; [lra|].
       intros H. exfalso. apply Hnlt. apply (H O). lia.
 Qed.
+
+Lemma sp_example : sp_pos [1; 2; 3] /\ sp_win_prob [1; 2; 3] 1 = 1 / 3.
+Proof.
+  assert (Hp : sp_pos [1; 2; 3]) by (repeat constructor; lra).
+  split; [exact Hp|]. rewrite sp_k1_probability; [|exact Hp | simpl; lia].
+  simpl. field.
+Qed.
